@@ -4,7 +4,7 @@ from __future__ import annotations
 import ast
 from typing import Dict, List, Optional
 
-from ..astutil import Inliner, attr_chain, call_name, match, returns_of, stmts_of
+from ..astutil import Inliner, attr_chain, call_name, match, returns_of, stmts_of, statement_texts
 from ..closedform import classify
 from ..core import OK, UNDECIDED, VIOLATION, AnalysisError, FuncInfo, Repo, Report, unparse
 from ..fecrules import ENC, LIN, SYS, UTL, block_matmul_rule, divisibility_raise, verified_return_rule
@@ -27,7 +27,7 @@ def rule_right_inverse(repo: Repo, rep: Report) -> int:
     lint_literal_fallback(rep, fi, "G2")
     lint_value_keyed(rep, fi, rule="G1", allowed_literals={0, 1, -1, 2})
     n += 2
-    body = {unparse(s) for s in stmts_of(fi.body)}
+    body = set(statement_texts(fi))
     if "_gf2_row_reduce" in fi.module.functions:
         need = ["right_inv[pivot_col, :] = transform[row_idx, :].to(matrix.dtype)", "reduced, transform, pivots = _gf2_row_reduce(matrix)"]
         for t in need:
@@ -62,7 +62,7 @@ def rule_inverse_form(repo: Repo, rep: Report) -> int:
     rep.expect(ok, "INVERSE-FORM", init, f"generator_right_inverse = {unparse(a[0].value) if a else '?'}", "right inverse of the very generator that is published", "the registered right inverse is not computed from the published generator")
     # systematic exact inverse
     si = repo.func(SYS, "SystematicLinearBlockCodeEncoder.__init__")
-    body = [unparse(s) for s in stmts_of(si.body)]
+    body = statement_texts(si)
     ok = "right_inverse[self._information_set, torch.arange(k)] = 1" in body and 'self.register_buffer("generator_right_inverse", right_inverse)'.replace('"', "'") in [b.replace('"', "'") for b in body] and any(b.startswith("right_inverse = torch.zeros((n, k)") for b in body)
     rep.expect(ok, "SYSTEMATIC-INVERSE", si, "R = 0_{n x k}; R[information_set[j], j] = 1; registered as generator_right_inverse", "selecting the information positions is an exact right inverse for every information set (G has the identity there)", "systematic encoders do not register the selection matrix of their information set as right inverse")
     # order: after super().__init__ (which registers the generic one)
